@@ -532,6 +532,8 @@ fn base_case(edges: Vec<(usize, usize, f64)>, n_v: usize, source: usize, target:
         target: Some(target),
         astar: None,
         query_wf: None,
+        svc: None,
+        term_via_builder: false,
     }
 }
 
